@@ -1,32 +1,50 @@
 """C07 - a write batch is all-or-nothing under rejection, storage faults and crashes.
 
-Proof part: lean/SemaModel/C07 (logical atomicity of the shard entry points for every program, every
-fault position, every kind of failure) + Generated/FactsC07.lean (T2: the entry points of
-shard/shard.go call cacheTx.Commit(true) on every error path).  Correspondence part (run hook):
+Proof part: lean/SemaModel/C07.
+  ASSUMED: bbolt's atomic commit (Disk.write / Obs.writeTx: a write transaction that returns an error keeps
+  nothing it did to any bucket; process death = one of its two branches).
+  PROVED beyond that (ObserveProps.lean, over the composed shard model of lean/SemaModel/Compose + the shared
+  cache layer of shard/cache/manager.go + C08's ItemCache): the observation `answers` = the answer of EVERY
+  query (Shard.SearchPoints read THROUGH the shared caches, Info().PointCount) of the running instance is
+  unchanged by a batch that reports an error (every fault position incl. inside Flush, the commit, a rejection
+  delivered at any progress of the other stages) and equals the observation of the Compose step after a batch
+  that reports success; invariant + cache coherence are preserved along histories mixing both;
+  C07_partial_cache_witness: the statement is FALSE for the variant that keeps the caches on the error path,
+  so it is not a consequence of the storage assumption.
+  Props.lean (older part): bookkeeping of an arbitrary program of steps (the disk clause there is the
+  assumption restated) + Generated/FactsC07.lean (T2: the entry points of shard/shard.go call
+  cacheTx.Commit(true) on every error path).
+Correspondence part (run hook):
 fault enumeration with go/cmd/c07 - every batch of a random history x every fault position k
 (thorough) or a sample (quick), each in its own child process behind a storage proxy; the property
 oracle is evaluated on the answers of the running instance and of the reopened file; the
-point-store part of every run is replayed by the Lean model (semadriver C07) and compared.
+point-store part of every run is replayed by the Lean model (semadriver C07) and compared, and so is the
+cache transaction: which shared caches the manager holds after every run (`caches` lines).
 """
 import json, os, re, time
 
 SPEC = {
-    "lean_modules": ["SemaModel.C07.Props"],
+    "lean_modules": ["SemaModel.C07.Props", "SemaModel.C07.ObserveProps"],
     "lean_dirs": ["SemaModel/C07"],
     "harness": "c07",
     "harness_args": {"quick": ["-tier", "quick"], "thorough": ["-tier", "thorough"]},
     "timeout": {"quick": 900, "thorough": 3000},
     "level": "proof",
-    "tie": "T2: Generated/FactsC07.lean is regenerated from shard/shard.go on every run (Commit(true) on every error path, Commit(false) on success, counters written only after the merged pipeline error was checked) and pinned by C07_error_paths_commit_fail; T3 as fault enumeration: a storage proxy (VerifWrapDB) fails the k-th Put/Delete/scan, the k-th bucket-manager Get, THE COMMIT ITSELF (the Write callback runs to completion and returns nil, then the proxy makes bbolt roll back and Write return an error: fault position = number of storage calls), or exits at the k-th storage call / right before commit / right after commit, in a child process on a copy of the database file; answers and bucket digests of the running instance and of the reopened file are compared with the pre-batch values (error / death before commit) or with a fault-free run (success / death after commit); the point-store calls and outcomes of the same runs are replayed by the Lean model",
+    "tie": "T2: Generated/FactsC07.lean is regenerated from shard/shard.go on every run (Commit(true) on every error path, Commit(false) on success, counters written only after the merged pipeline error was checked) and pinned by C07_error_paths_commit_fail; T3 as fault enumeration: a storage proxy (VerifWrapDB) fails the k-th Put/Delete/scan, the k-th bucket-manager Get, THE COMMIT ITSELF (the Write callback runs to completion and returns nil, then the proxy makes bbolt roll back and Write return an error: fault position = number of storage calls), or exits at the k-th storage call / right before commit / right after commit, in a child process on a copy of the database file; answers and bucket digests of the running instance and of the reopened file are compared with the pre-batch values (error / death before commit) or with a fault-free run (success / death after commit); the point-store calls and outcomes of the same runs are replayed by the Lean model; the cache transaction of every run that returned is replayed too (`caches` lines: the shared caches held by the real cache.Manager after the batch — name, same object, scrapped — against `Step.cache`/`runBatch` of Model.lean AND `openFlat`/`exec`/`abortWith` of ObserveModel.lean: success keeps every opened cache, a failed commit drops every opened cache, a failing stage drops the reached ones and no cache the batch does not open). The observation theorems (ObserveProps.lean) are over lean/SemaModel/Compose (tied by its own check) and C08's ItemCache model; their non-vacuity examples run the model on Compose's example shard with a warm cache",
     "required_theorems": [
         "Sema.C07.C07_atomic", "Sema.C07.C07_error_observe", "Sema.C07.C07_success_keeps_written",
         "Sema.C07.C07_fault_reports_error", "Sema.C07.C07_rejection_reports_error", "Sema.C07.C07_clean_run_succeeds",
         "Sema.C07.C07_entry_points_atomic", "Sema.C07.C07_crash_is_write_branch_assumed",
         "Sema.C07.C07_error_paths_commit_fail",
         "Sema.C07.C07_commit_fault_atomic", "Sema.C07.C07_commit_by_closure_flag_not_atomic",
+        # what C07 proves beyond its assumption (ObserveProps.lean)
+        "Sema.C07.C07_observe_atomic", "Sema.C07.C07_observe_error_any_program", "Sema.C07.C07_observe_history",
+        "Sema.C07.C07_partial_cache_witness", "Sema.C07.C07_observe_crash_assumed",
+        "Sema.C07.C07_coherent_of_C08", "Sema.C07.C07_flat_write_coherent",
     ],
     "trusted_base": [
-        "ASSUMED, not verified: bbolt commits atomically and durably (Base/KV.lean Disk.write: a write transaction is all-or-nothing; process death before commit = its error branch, after commit = its ok branch). Crash points therefore have no proof; they are exercised by the harness only (exit at the k-th storage call, right before and right after commit, then the file is reopened)",
+        "ASSUMED, not verified: bbolt commits atomically and durably (Base/KV.lean Disk.write, ObserveModel.lean writeTx: a write transaction that returns an error keeps nothing it did to any bucket; process death before commit = its error branch, after commit = its ok branch). Every 'disk identical' clause of Props.lean (C07_atomic, C07_entry_points_atomic, C07_commit_fault_atomic, C07_crash_is_write_branch_assumed) IS this assumption restated — it closes by rfl. Crash points have no proof; they are exercised by the harness only (exit at the k-th storage call, right before and right after commit, then the file is reopened)",
+        "PROVED on top of the assumption (ObserveProps.lean): that NO QUERY of the running instance can tell a failed batch from one never issued (C07_observe_atomic, C07_observe_history) — this needs Commit(true) to drop the written caches and the others to be coherent (C08's invariant), and is false without (C07_partial_cache_witness); and that after success every query sees exactly the Compose step. Scope of that proof: the indexes of lean/SemaModel/Compose (point store, inverted, flat vector, text); of these only the flat index uses the shared cache manager; the vamana graph cache is covered by the harness only; abstract numerics (DESIGN 3.2); the body's steps in one sequential order (the error half holds for every program of steps: C07_observe_error_any_program)",
         "the model is the SEQUENTIAL program of a batch; goroutine lifetimes are outside it (the known defect lives there and is found by the harness, not by a theorem)",
         "tools/facts_c07 (go/ast over shard/shard.go)",
         "Bucket.Get cannot return an error in diskstore's interface: storage *reads* are counted and used as crash points, only Put/Delete/ForEach/PrefixScan/RangeScan and BucketManager.Get are failed",
